@@ -105,20 +105,25 @@ def _decode_fns(ctx):
     return set(reach) | set(extra)
 
 
-def enumerate_all(ctx):
+def enumerate_all(ctx, known=None):
+    """known: the decode-path functions that existed when the tables were reviewed.  Constructs found in functions
+    added since are counted at their call sites in reviewed functions (a check / loop / panic moved into a helper
+    is still the same check / loop / panic), so the inventories compare like with like."""
     crate = ctx.crate()
     fns = _decode_fns(ctx)
-    g = INV.guards(crate, fns)
+    new = set() if known is None else {f for f in fns if f not in known and "{closure" not in f}
+    own = INV.owners(crate, fns, new)
+    g = INV.guards(crate, fns, new)
     for x in g:
         x["fn"] = _short(x["fn"])
-    p = INV.panics(crate, fns)
+    p = INV.reattribute(INV.panics(crate, fns), own)
     for x in p:
         x["fn"] = _short(x["fn"])
-    l = INV.loops(crate, fns)
+    l = INV.reattribute(INV.loops(crate, fns), own)
     l = [x for x in l if x["kind"] != "for"]
     for x in l:
         x["fn"] = _short(x["fn"])
-    a = INV.arith_sites(crate, fns)
+    a = INV.reattribute(INV.arith_sites(crate, fns), own)
     for x in a:
         x["fn"] = _short(x["fn"])
     u = INV.unsafe_fns(crate)
@@ -126,10 +131,11 @@ def enumerate_all(ctx):
 
 
 def freeze(ctx, cfgs):
-    out = {"guards": {}, "panics": {}, "loops": {}, "arith": {}, "unsafe": set()}
+    out = {"guards": {}, "panics": {}, "loops": {}, "arith": {}, "unsafe": set(), "functions": set()}
     for cfg in cfgs:
         ctx.cfg = cfg
         fns, g, p, l, a, u = enumerate_all(ctx)
+        out["functions"] |= {f for f in fns if "{closure" not in f}
         guards = {}
         for x in g:
             if not x["variant"]:
@@ -156,6 +162,7 @@ def freeze(ctx, cfgs):
                             ex += it["exits"] + (["while " + it["cond"]] if it["cond"] else [])
                     out[name][k]["exits"] = prev["exits"] if "exits" in prev else sorted(ex)
     out["unsafe"] = sorted(out["unsafe"])
+    out["functions"] = sorted(out["functions"])
     out["slices"] = dict(SLICE_REASONS)
     return out
 
@@ -166,7 +173,7 @@ def run(ctx):
         ctx.undecided("C03.tables", "missing", "", "tables/c03.json not found")
         return
     T = json.load(open(TABLE))
-    fns, g, p, l, a, u = enumerate_all(ctx)
+    fns, g, p, l, a, u = enumerate_all(ctx, set(T.get("functions") or ()) or None)
     ctx.counts["decode-path-fns"] = len(fns)
 
     # (a) guards: baseline multiset contained in the current one
@@ -245,7 +252,7 @@ def _dom_ties(ctx):
             ok = len(shifts) == 1 and len(bits) == 1
             for s in shifts + bits:
                 amt = ix.canon(s["r"]) if s.get("k") == "Binary" else ix.canon(s["args"][0])
-                want = "(%s <= ruzstd::blocks::sequence_section::MAX_OFFSET_CODE)" % amt
+                want = "(%s <= %d)" % (amt, ctx.const("ruzstd::blocks::sequence_section::MAX_OFFSET_CODE"))
                 ok = ok and want in dom.conds(ix, s)
             ctx.check(ok, R, fn + "::offset-code-range-before-shift-and-read", b["file"],
                       "of_code <= MAX_OFFSET_CODE must dominate `1 << of_code` and the offset bit read")
@@ -269,7 +276,8 @@ def _dom_ties(ctx):
             if ok:
                 val = ix.canon(hq.peel(a[0]["r"])["args"][0])
                 cs = dom.conds(ix, a[0])
-                ok = ("(%s <= ruzstd::blocks::sequence_section::%s)" % (val, mx)) in cs and any(c.startswith("(0 != ") for c in cs)
+                ok = ("(%s <= %d)" % (val, ctx.const("ruzstd::blocks::sequence_section::" + mx))) in cs and \
+                    any(c.startswith("(0 != core::slice::len(") for c in cs)
             ctx.check(ok, R, f + "::range-checked-before-store", b["file"], "the RLE symbol is stored only after `symbol <= %s` and a non-empty source" % mx)
         # constants equal the table sizes the lookups cover
         from . import c14
@@ -282,8 +290,7 @@ def _dom_ties(ctx):
         for p, b2 in crate.hir.items():
             for c_ in hq.calls_to(b2["body"], "fse_decoder::FSETable::new"):
                 sites.append((p, hq.Canon(b2)(c_["args"][0])))
-        good = {"ruzstd::blocks::sequence_section::MAX_OFFSET_CODE", "ruzstd::blocks::sequence_section::MAX_LITERAL_LENGTH_CODE",
-                "ruzstd::blocks::sequence_section::MAX_MATCH_LENGTH_CODE", "255"}
+        good = {str(ctx.const("ruzstd::blocks::sequence_section::" + c_)) for c_ in ("MAX_OFFSET_CODE", "MAX_LITERAL_LENGTH_CODE", "MAX_MATCH_LENGTH_CODE")} | {"255"}
         ctx.check(len(sites) >= 7 and all(v in good for p, v in sites), R, "FSETable::new::alphabet-limits", "",
                   "decoder FSE tables are created with the alphabet limit of their code type", observed=sorted(set(v for p, v in sites)))
         # the two TooManySymbols guards use max_symbol
@@ -361,9 +368,9 @@ SLICE_REASONS = {
         "callee contract: LiteralsSection::parse_from_header returns the header length only after `raw.len() < byte_needed` was rejected (guard inventory) and both tables equal the RFC (C14.layout.literals-header)",
     "BlockDecoder::decompress_block::raw[(bytes_in_sequence_header as usize)..]":
         "callee contract: SequencesHeader::parse_from_header returns 1/2/3/4 only after the matching `source.len() < k` guard (guard inventory, C14.table.seq-count)",
-    "literals_section_decoder::decode_literals::source[0..(section.regenerated_size as usize)]":
+    "literals_section_decoder::decode_literals::source[..(section.regenerated_size as usize)]":
         "caller contract: decompress_block passes raw[..upper_limit] with upper_limit = regenerated_size for raw literals (C01.table.dispatch literals-extent) after `raw.len() < upper_limit` was rejected",
-    "literals_section_decoder::decompress_literals::source[0..compressed_size]":
+    "literals_section_decoder::decompress_literals::source[..compressed_size]":
         "caller contract: decompress_block passes raw[..upper_limit] with upper_limit = compressed_size (C01.table.dispatch literals-extent)",
     "literals_section_decoder::decompress_literals::source[(bytes_read as usize)..]":
         "callee contract: HuffmanTable::build_decoder returns 1 + header bytes only after NotEnoughBytesForWeights / NotEnoughBytesInSource rejected shorter sources (guard inventory)",
